@@ -6,6 +6,41 @@ import os
 HERE = os.path.dirname(os.path.dirname(os.path.abspath(__file__)))
 
 CLAIMED = {
+    "C10": dict(
+        category="translation_validation",
+        text="Reuse of the simplification workspace and of recycled function storage: tvdump runs the real simplify_with with a "
+             "VmWorkspace and VmData storage that were first used for a larger, register-spilling function and are then reused across "
+             "every trace of every enumerated parent (incl. wide parents that spill at a budget of 3); z3 validates each child against "
+             "its parent for all inputs compatible with the trace, plus slot/register bounds of the reused tapes.",
+        design="DESIGN.md §2 C10",
+        note="Trusted: z3; same encoding as C04. Outside: reuse of evaluator objects across tapes (needs the interpreter loop, which CBMC "
+             "does not execute in reach), MmapWriter growth, JIT drivers, RenderHandle::recycle.",
+        technique="SMT translation validation of simplify run natively with reused workspace/storage histories",
+        engine="E-TV",
+    ),
+    "C12": dict(
+        category="translation_validation",
+        text="Every Context constructor is applied natively to operands drawn from variables and the special constants "
+             "(0, -0, 1, -1, 2, 0.5, 3, +-inf, NaN, denormal) on either side, the same node twice, unary-of-unary and two-level nestings; "
+             "the graph the Context holds is read back and z3 (IEEE FP theory) decides that it equals the expression as written for all "
+             "variable values whenever that evaluation is finite (up to the sign of zero); building twice must give the same node.",
+        design="DESIGN.md §2 C12",
+        note="Trusted: z3 FP theory as the meaning of f32 arithmetic; documented opcode semantics shared with E-X; libm/atan2/mod uninterpreted. "
+             "Outside: Tree Eq/Hash consistency, import/export identity, recursion depth, libm constant folding, deeper nestings.",
+        technique="SMT translation validation (z3 QF_BVFP+UF) of natively built expression graphs",
+        engine="E-TV",
+    ),
+    "C18": dict(
+        category="model_checking",
+        text="Kani harnesses over the real View2/View3 code from an arbitrary state (all 2^32 bit patterns per field): rotating leaves centre "
+             "and scale untouched, keeps pitch in [0, pi] and |yaw| < tau and reports `changed` exactly when yaw/pitch changed; zooming "
+             "without a cursor multiplies the scale, leaves everything else untouched and must not report `changed` for a bit-identical view.",
+        design="DESIGN.md §2 C18",
+        note="Trusted: Kani/CBMC (incl. its fmod model for `%`). Outside: zoom/drag about a cursor position and world_to_model == T*R*S "
+             "(nalgebra matrix code exceeds 15 min per harness under CBMC; harnesses kept as c18_x_* but not run), Canvas event plumbing.",
+        technique="bounded model checking of the compiled view code (Kani)",
+        engine="E-K",
+    ),
     "C02": dict(
         category="model_checking",
         text="The machine code emitted by the real x86-64 point and float-slice assemblers (build_asm_fn_with_storage on tapes built from "
@@ -70,7 +105,7 @@ CLAIMED = {
         design="DESIGN.md §4 C03",
         note="Trusted: Kani 0.68/CBMC 6.11/CaDiCaL; libm contract stubs (functional, NaN-propagating, range, monotone where stated). "
              "Outside: quadrant branches of Interval::sin/cos, non-degenerate tan, atan2 corner selection, rem_euclid; values between lattice points; aarch64; WGSL.",
-        technique="bounded model checking of the compiled kernels (Kani harnesses, symbolic f32 bit patterns, contract stubs for libm)",
+        technique="bounded model checking of the compiled kernels and interpreter arms (Kani), symbolic execution of the x86-64 interval JIT code into SMT (z3)",
         engine="E-K",
     ),
     "C05": dict(
@@ -103,7 +138,7 @@ CLAIMED = {
              "bit-for-bit at every point of the box (the fact that makes trace-driven simplification sound).",
         design="DESIGN.md §4 C20",
         note="Trusted: Kani/CBMC. Outside until E-X/VM units are added: trace bookkeeping of the interpreter loop and JIT code.",
-        technique="bounded model checking of the compiled choice kernels (Kani)",
+        technique="bounded model checking of the compiled choice kernels and interpreter arms (Kani), symbolic execution of the x86-64 JIT trace code into SMT (z3)",
         engine="E-K",
     ),
 }
@@ -116,12 +151,9 @@ NOT_APPLICABLE = {
     "C17": "Scripts: the unit is the Rhai interpreter (string parser + dynamic dispatch), far beyond bounded symbolic execution here.",
     "C19": "Constraint solver: HashMap<Var,_> API, dynamic nalgebra matrices and an SVD-based LM loop; hash-map and nalgebra code alone cost minutes per call under CBMC and the claims are numeric.",
     # not yet built (kept current as checks are added)
-    "C10": "not yet built in this revision (planned, DESIGN.md §4)",
-    "C12": "not yet built in this revision (planned: E-TV with FP theory, DESIGN.md §4)",
-    "C13": "not yet built in this revision (planned, DESIGN.md §4)",
-    "C14": "not yet built in this revision (planned, DESIGN.md §4)",
-    "C16": "not yet built in this revision (planned, DESIGN.md §4)",
-    "C18": "not yet built in this revision (planned, DESIGN.md §4)",
+    "C13": "not built: the planned exact-arithmetic translation validation of Context::import over remap frames was not reached in the time available; no solver-based check decides it",
+    "C14": "not built: ShapeTracingEval/ShapeBulkEval go through nalgebra transforms and HashMap-keyed variable binding, which CBMC does not get through within minutes per call (same cost wall as the C18 matrix harnesses)",
+    "C16": "not built: shape builders are nalgebra/Tree-remap code whose meaning depends on C13 (remap = substitution), which is not decided here",
 }
 
 HOOK_COMMITS = ["6f64d81", "a9b3eaa"]
@@ -154,11 +186,11 @@ def main():
             "add_only": True,
         },
         "engines": [
-            {"name": "E-X", "path": "/verif/lib/x86smt.py", "serves_properties": ["C02"],
+            {"name": "E-X", "path": "/verif/lib/x86smt.py", "serves_properties": ["C02", "C03", "C20"],
              "kind_free_text": "tvdump assembles tapes with the real fidget-jit assemblers; lib/lifter.py + lib/x86smt.py + lib/jitsmt.py execute the machine code symbolically into SMT for z3"},
-            {"name": "E-TV", "path": "/verif/tv", "serves_properties": ["C01", "C04", "C15"],
+            {"name": "E-TV", "path": "/verif/tv", "serves_properties": ["C01", "C04", "C10", "C12", "C15"],
              "kind_free_text": "tvdump (Rust, path dependency on /repo) runs the real compiler passes natively on enumerated programs; lib/tv_engine.py encodes each input/output pair for z3"},
-            {"name": "E-K", "path": "/verif/kani", "serves_properties": ["C03", "C05", "C11", "C20"],
+            {"name": "E-K", "path": "/verif/kani", "serves_properties": ["C01", "C03", "C04", "C05", "C11", "C18", "C20"],
              "kind_free_text": "Kani 0.68 / CBMC 6.11 proof harnesses over the real fidget crates (path dependency on /repo), driven by /verif/check"},
         ],
         "checks": checks,
